@@ -48,6 +48,37 @@ StatusIs(x, code) ==
     /\ \E k \in 1 .. Len(x.msg.args[1].p) :
           BytesEq(x.msg.args[1].p[k][1], Lit(N_code)) /\ StrIs(x.msg.args[1].p[k][2], code)
 
+\* ---- SHAPE diagnostics (beyond the listed properties; reported as spec_drift, never a violation):
+\* the exact sequence of messages a response consists of, and the session clock on control messages
+KindOf(x) ==
+    IF x.msg.k = "UserControl" THEN "UC:" \o x.msg.et
+    ELSE IF x.msg.k = "Command" THEN
+        (IF CmdIs(x, N_result) THEN "_result" ELSE IF CmdIs(x, N_error) THEN "_error" ELSE IF CmdIs(x, N_onBWDone) THEN "onBWDone"
+         ELSE IF StatusIs(x, N_PublishStart) THEN "Publish.Start" ELSE IF StatusIs(x, N_PlayStart) THEN "Play.Start"
+         ELSE IF StatusIs(x, N_PlayReset) THEN "Play.Reset" ELSE IF StatusIs(x, N_PlayComplete) THEN "Play.Complete" ELSE "Command")
+    ELSE IF x.msg.k = "Data" THEN
+        (IF Len(x.msg.vals) >= 1 /\ StrIs(x.msg.vals[1], N_SampleAccess) THEN "SampleAccess"
+         ELSE IF Len(x.msg.vals) >= 1 /\ StrIs(x.msg.vals[1], N_onStatus) THEN "Data.onStatus"
+         ELSE IF Len(x.msg.vals) >= 1 /\ StrIs(x.msg.vals[1], N_onMetaData) THEN "onMetaData" ELSE "Data")
+    ELSE x.msg.k
+Kinds(outs) == [k \in 1 .. Len(outs) |-> KindOf(outs[k])]
+
+NewShape(cfg) == <<"SetChunkSize", "WinAck", "UC:StreamBegin", "SetPeerBw">> \o (IF cfg.bwdone THEN <<"onBWDone">> ELSE <<>>)
+NewShapeOK(cfg, outs) ==
+    /\ Kinds(outs) = NewShape(cfg)
+    /\ outs[1].msg.v = <<cfg.cs \div 65536, cfg.cs % 65536>> /\ outs[2].msg.v = cfg.win
+    /\ outs[3].msg.sid = << <<0, 0>> >> /\ outs[4].msg.v = cfg.bw /\ outs[4].msg.lt = "Dynamic"
+    /\ \A k \in 1 .. Len(outs) : outs[k].msid = 0
+
+AcceptShape(kind) ==
+    CASE kind = "connect" -> <<"_result">>
+      [] kind = "publish" -> <<"UC:StreamBegin", "Publish.Start">>
+      [] kind = "play" -> <<"Play.Reset", "UC:StreamBegin", "Play.Start", "SampleAccess", "Data.onStatus">>
+
+\* control messages carry the session uptime (the clock hook makes it known); media carries the caller's timestamp
+ClockOK(outs, clk) == \A k \in 1 .. Len(outs) :
+    outs[k].msg.k \in {"Audio", "Video", "SetChunkSize", "Undecodable"} \/ outs[k].ts = clk
+
 \* does the returned outbound item x satisfy the expected observation e?
 OutMatch(e, x) ==
     CASE e.o = "Error"         -> CmdIs(x, N_error) /\ x.msg.txn = e.txn /\ x.msid = e.msid
@@ -113,6 +144,8 @@ Advance == l' = l + 1 /\ UNCHANGED fin
 DoNew ==
     /\ st' = SrvInit /\ win' = <<>> /\ pend' = Zero /\ prevProbe' = Ev.probe /\ dead' = FALSE
     /\ IF Ev.res # "ok" THEN Say("SRV", "session construction failed: " \o Ev.res) ELSE TRUE
+    /\ IF Ev.res = "ok" /\ ~NewShapeOK(Ev.cfg, Outs(Ev.results)) THEN Say("SHAPE", "initial messages differ from SetChunkSize(cfg), WindowAck(cfg), StreamBegin(0), SetPeerBandwidth(cfg, dynamic)[, onBWDone]") ELSE TRUE
+    /\ IF Ev.res = "ok" /\ ~ClockOK(Outs(Ev.results), Ev.clk) THEN Say("SHAPE", "a control message does not carry the session uptime") ELSE TRUE
     /\ Advance
 
 \* judge one In / Call event
@@ -126,6 +159,7 @@ DoStep ==
         exO == ExpOuts(r.obs)
         gotE == Events(rs)
         gotO == Outs(rs)
+        rs2 == SelectSeq(rs, LAMBDA x : x.k = "out")
         wantErr == r.obs = ErrObs
         malformedMeta == i0.m = "setDataFrame" /\ i0.shape # "ok"
         \* acknowledgement accounting (In events only)
@@ -159,6 +193,9 @@ DoStep ==
                                          ELSE "window reached: exactly one acknowledgement carrying the byte count must be emitted by this call")
                ELSE TRUE
             /\ IF verdictSrv = "" /\ ~ProbeOK(Ev.probe, r.st) THEN Say("PROBE", "session state differs from the model after " \o i0.m) ELSE TRUE
+            /\ IF verdictSrv = "" /\ ~ClockOK(rs2, Ev.clk) THEN Say("SHAPE", "a control message does not carry the session uptime (" \o i0.m \o ")") ELSE TRUE
+            /\ IF verdictSrv = "" /\ i0.m = "accept" /\ ~wantErr /\ Kinds(gotO) # AcceptShape(st.reqs[i0.id].k)
+               THEN Say("SHAPE", "acceptance of a " \o st.reqs[i0.id].k \o " request does not consist of the usual messages") ELSE TRUE
     /\ st' = r.st
     /\ prevProbe' = Ev.probe
     \* the window applies from the call after the one that announced it; what that call itself
